@@ -399,7 +399,7 @@ impl<'a> Substr<'a> {
             return false;
         }
         let mut slice = self.slice;
-        if slice[0] == b'-' {
+        if slice[0] == b'-' || slice[0] == b'+' {
             if slice.len() < 2 {
                 return false;
             }
@@ -415,7 +415,7 @@ impl<'a> Substr<'a> {
             return None;
         }
         let mut slice = self.slice;
-        if slice[0] == b'-' {
+        if slice[0] == b'-' || slice[0] == b'+' {
             if slice.len() < 2 {
                 return None;
             }
